@@ -1,5 +1,4 @@
-// C14 harness: igris/container/ twin at the capacities around a narrowed
-// 8-bit size counter (255, 256, 257; strings also 127, 128).
+// the igris/container/ twin (static_vector.h, static_string.h)
 #include "C14/machine.h"
 #include <igris/container/static_vector.h>
 #include <igris/container/static_string.h>
@@ -12,10 +11,6 @@ namespace
         template <size_t N> using str = igris::static_string<N>;
     };
 }
-namespace c14
-{
-    IMachine *make_b8_c(bool str, bool trk, size_t N, int K, bool canary)
-    {
-        return str ? make_str_b8<TwinC>(N, K, canary) : make_vec_b8<TwinC>(trk, N, K, canary);
-    }
-}
+#define C14_TWIN TwinC
+#define C14_FACTORY(group) \
+    namespace c14 { IMachine *make_c_##group(bool str, bool trk, size_t N, int K, bool canary) { return make_##group<TwinC>(str, trk, N, K, canary); } }
